@@ -2,9 +2,12 @@
 package c02
 
 import (
+	"bytes"
 	"encoding/json"
 	"fmt"
 	"math"
+	"math/rand"
+	"os"
 	"sync"
 	"sync/atomic"
 	"time"
@@ -43,9 +46,10 @@ type Scenario struct {
 	S       int             `json:"S"`
 	Samples [][2]int        `json:"samples"`
 	P       latgeo.LPath    `json:"p"`
-	CP      latgeo.CPath    `json:"cp,omitempty"` // curved scenario (spec/CurvedOps.tla): cubic contours instead of P
-	Open    bool            `json:"open"` // leave the contours open (Settle closes them implicitly)
-	Det     bool            `json:"det"`  // deterministic (exhaustive) space: known findings are recorded per input
+	CP      latgeo.CPath    `json:"cp,omitempty"`    // curved scenario (spec/CurvedOps.tla): cubic contours instead of P
+	Open    bool            `json:"open"`            // leave the contours open (Settle closes them implicitly)
+	Det     bool            `json:"det"`             // deterministic (exhaustive) space: known findings are recorded per input
+	Space   string          `json:"space,omitempty"` // "fixed": the fixed-seed shared-edge family (signature suffix @fixed; known findings per input)
 	Emb     latgeo.Emb      `json:"emb"`
 	Exp     [4][]int        `json:"exp"` // expected cells per fill rule
 	F       map[string]bool `json:"f"`
@@ -231,6 +235,9 @@ func exec(s *Scenario, guard bool) (ms []core.Mismatch) {
 			// being closed implicitly (feature HasOpenSubpath)
 			ms[i].Signature = "open-subpath-not-implicitly-closed"
 		} else if s.Det {
+			if s.Space != "" {
+				ms[i].Signature += "@" + s.Space
+			}
 			ms[i].Key = ms[i].Signature + "|" + s.svg() + "|" + s.Emb.Name
 		}
 	}
@@ -250,6 +257,16 @@ func equalData(a, b []float64) bool {
 }
 
 func (Driver) Replay(c *core.Ctx, raw json.RawMessage) []core.Mismatch {
+	var k struct {
+		Kind string `json:"kind"`
+	}
+	if json.Unmarshal(raw, &k) == nil && k.Kind == "mix" {
+		var m MixScenario
+		if err := json.Unmarshal(raw, &m); err != nil {
+			return []core.Mismatch{{Signature: "machinery", Detail: err.Error()}}
+		}
+		return execMix(&m, true)
+	}
 	var s Scenario
 	if err := json.Unmarshal(raw, &s); err != nil {
 		return []core.Mismatch{{Signature: "machinery", Detail: err.Error()}}
@@ -296,7 +313,8 @@ func (d Driver) Run(c *core.Ctx) error {
 	runGen := func(o tlc.Opts, open, det bool) { runGenX(c, o, open, det, false, &n, &nontriv, &seen) }
 	runCurved := func(o tlc.Opts) { runGenX(c, o, false, false, true, &n, &nontriv, &seen) }
 	_ = runCurved
-	if c.Thorough() {
+	if o := os.Getenv("VERIF_C02_ONLY"); o == "scenes" || o == "mix" { // development aid
+	} else if c.Thorough() {
 		runGen(tlc.Opts{Module: "BoolOps", Config: cfg(2, 4, 1, "all", 0, false), Timeout: 30 * time.Minute}, false, true) // all 6561 4-point contours on 3x3
 		runGen(tlc.Opts{Module: "BoolOps", Config: cfg(2, 3, 2, "all", 0, false), Timeout: 30 * time.Minute}, false, true) // all pairs of 3-point contours on 3x3 (531441)
 		runGen(tlc.Opts{Module: "BoolOps", Config: cfg(4, 6, 1, "random", 60000, false), Seed: c.Seed, Timeout: 30 * time.Minute}, false, false)
@@ -311,83 +329,222 @@ func (d Driver) Run(c *core.Ctx) error {
 		runGen(tlc.Opts{Module: "BoolOps", Config: cfg(3, 5, 1, "random", 40, false), Seed: c.Seed + 2}, true, false)
 		runCurved(tlc.Opts{Module: "CurvedOps", Config: ccfg(4, 3, 600), Seed: c.Seed + 3})
 	}
+	if os.Getenv("VERIF_C02_ONLY") != "scenes" {
+		all := `{"L","A","Q","C"}`
+		runMix(c, tlc.Opts{Module: "Query", Config: qcfg(4, 3, 1, "curves", all, c.Pick(150, 1500)), Seed: c.Seed + 7, Workers: 4, HeapGB: 3, Timeout: 30 * time.Minute}, &n, &nontriv, &seen)
+		runMix(c, tlc.Opts{Module: "Query", Config: qcfg(4, 2, 2, "curves", all, c.Pick(60, 600)), Seed: c.Seed + 8, Workers: 4, HeapGB: 3, Timeout: 30 * time.Minute}, &n, &nontriv, &seen)
+	}
+	if os.Getenv("VERIF_C02_ONLY") != "mix" {
+		runScenes(c, "fixed", 16, c.Pick(6000, 24000), sharedSceneMulti, &n, &nontriv, &seen)
+	}
 	c.Count(0, nontriv, 0)
 	c.SetExtra("paths", n)
 	return nil
 }
 
-func runGenX(c *core.Ctx, o tlc.Opts, open, det, curved bool, n, nontriv *int64, seen *sync.Map) {
-		var hdr Line
-		ch := make(chan []byte, 8192)
-		o.OnLine = func(p []byte) {
-			if hdr.S == 0 {
-				var l Line
-				if json.Unmarshal(p, &l) == nil && l.Hdr {
-					hdr = l
-					return
+// ---- driver-chosen families (spec/Scenes.tla computes their expectations and features) ---------------------
+
+func cross(a, b, c [2]int) int { return (b[0]-a[0])*(c[1]-a[1]) - (b[1]-a[1])*(c[0]-a[0]) }
+
+// properCross: the open segments ab and uv cross in one interior point (exact)
+func properCross(a, b, u, v [2]int) bool {
+	d1, d2, d3, d4 := cross(a, b, u), cross(a, b, v), cross(u, v, a), cross(u, v, b)
+	return d1 != 0 && d2 != 0 && d3 != 0 && d4 != 0 && (d1 > 0) != (d2 > 0) && (d3 > 0) != (d4 > 0)
+}
+
+// sharedScene: two contours that share an edge (in the same or in opposite directions), or one contour that doubles
+// back over its own edge, and a thin triangle whose two long edges cross the shared stretch at non-lattice points.
+func sharedScene(r *rand.Rand) latgeo.LPath { return sharedSceneK(r, 1) }
+
+func sharedSceneK(r *rand.Rand, k int) latgeo.LPath {
+	const n = 16
+	pt := func(even bool) [2]int {
+		if even {
+			return [2]int{2 * r.Intn(n/2+1), 2 * r.Intn(n/2+1)}
+		}
+		return [2]int{r.Intn(n + 1), r.Intn(n + 1)}
+	}
+	for {
+		a, b := pt(true), pt(true)
+		if dx, dy := a[0]-b[0], a[1]-b[1]; dx*dx+dy*dy < 16 {
+			continue
+		}
+		var p latgeo.LPath
+		if r.Intn(3) == 0 { // one contour doubling back: b, a, mid, e
+			mid, e := [2]int{(a[0] + b[0]) / 2, (a[1] + b[1]) / 2}, pt(false)
+			if cross(a, b, e) == 0 {
+				continue
+			}
+			p = latgeo.LPath{{b, a, mid, e}}
+		} else {
+			c1, d := pt(false), pt(false)
+			if cross(a, b, c1) == 0 || cross(a, b, d) == 0 {
+				continue
+			}
+			second := latgeo.LContour{b, a, d}
+			if r.Intn(2) == 0 {
+				second = latgeo.LContour{a, b, d}
+			}
+			p = latgeo.LPath{{a, b, c1}, second}
+		}
+		// the crossing triangles: apex u on one side, v and w on the other, both long edges cross ab
+		for t := 0; t < k; t++ {
+			var tri latgeo.LContour
+			for try := 0; try < 200 && tri == nil; try++ {
+				u, v, w := pt(false), pt(false), pt(false)
+				if properCross(a, b, u, v) && properCross(a, b, u, w) && cross(u, v, w) != 0 {
+					tri = latgeo.LContour{u, v, w}
 				}
 			}
-			ch <- append([]byte(nil), p...)
+			if tri == nil {
+				break
+			}
+			if r.Intn(2) == 0 {
+				tri[1], tri[2] = tri[2], tri[1]
+			}
+			p = append(p, tri)
 		}
-		done := make(chan struct{})
-		go func() {
-			core.Parallel(14, ch, func(p []byte) {
-				var l Line
-				if err := json.Unmarshal(p, &l); err != nil {
-					c.Broken("bad scenario line: " + err.Error())
+		if len(p) < 2 {
+			continue
+		}
+		r.Shuffle(len(p), func(i, j int) { p[i], p[j] = p[j], p[i] })
+		return p
+	}
+}
+
+// randScene: 1-4 contours with 3-7 vertices on the 8 x 8 lattice (like the scenes of C01)
+func randScene(r *rand.Rand) latgeo.LPath {
+	const n = 8
+	var p latgeo.LPath
+	for c := 0; c < 1+r.Intn(4); c++ {
+		var ct latgeo.LContour
+		x0, y0, w := r.Intn(n-2), r.Intn(n-2), 3+r.Intn(n-2)
+		for v := 0; v < 3+r.Intn(5); v++ {
+			ct = append(ct, [2]int{min(n, x0+r.Intn(w)), min(n, y0+r.Intn(w))})
+		}
+		p = append(p, ct)
+	}
+	return p
+}
+
+// sharedSceneMulti: sharedScene with one to four crossing triangles (every crossing of the doubled stretch is a chance
+// for the two coincident edges to be cut at points that differ in the last bits).
+func sharedSceneMulti(r *rand.Rand) latgeo.LPath { return sharedSceneK(r, 1+r.Intn(4)) }
+
+func runScenes(c *core.Ctx, family string, latticeN, num int, gen func(*rand.Rand) latgeo.LPath, n, nontriv *int64, seen *sync.Map) {
+	r := rand.New(rand.NewSource(c.Seed*7919 + int64(hash(family))))
+	fixed := family == "fixed"
+	if fixed {
+		// the same scenes whatever VERIF_SEED: failures of the unchanged tree in this family are recorded per input, so that
+		// a change that fails on any OTHER scene of the family is reported although the class is not clean (the quick tier
+		// runs a prefix of the thorough tier's scenes)
+		r = rand.New(rand.NewSource(20260928))
+	}
+	var buf bytes.Buffer
+	enc := json.NewEncoder(&buf)
+	dup := map[string]bool{}
+	for i := 0; i < num; i++ {
+		p := gen(r)
+		if js := os.Getenv("VERIF_C02_SCENE_JSON"); js != "" { // development aid: one given scene
+			p = nil
+			json.Unmarshal([]byte(js), &p)
+		}
+		if k := p.SVG(); dup[k] {
+			continue
+		} else {
+			dup[k] = true
+		}
+		enc.Encode(map[string]any{"p": p})
+	}
+	o := tlc.Opts{Module: "Scenes", Files: map[string][]byte{"scenes.ndjson": buf.Bytes()}, Timeout: 30 * time.Minute,
+		Config: fmt.Sprintf("SPECIFICATION SSpec\nCONSTANTS N = %d\n K = 3\n NC = 1\n Mode = \"all\"\n Num = 0\n What = \"settle\"\nCHECK_DEADLOCK FALSE\n", latticeN)}
+	before := atomic.LoadInt64(n)
+	if fixed {
+		runGenX(c, o, false, true, false, n, nontriv, seen, "fixed")
+	} else {
+		runGenX(c, o, false, false, false, n, nontriv, seen)
+	}
+	if got := atomic.LoadInt64(n) - before; got != int64(len(dup)) {
+		c.Broken(fmt.Sprintf("Scenes (%s): %d scenarios came back for %d scenes", family, got, len(dup)))
+	}
+	c.SetExtra("scenes_"+family, len(dup))
+}
+
+func runGenX(c *core.Ctx, o tlc.Opts, open, det, curved bool, n, nontriv *int64, seen *sync.Map, space ...string) {
+	var hdr Line
+	ch := make(chan []byte, 8192)
+	o.OnLine = func(p []byte) {
+		if hdr.S == 0 {
+			var l Line
+			if json.Unmarshal(p, &l) == nil && l.Hdr {
+				hdr = l
+				return
+			}
+		}
+		ch <- append([]byte(nil), p...)
+	}
+	done := make(chan struct{})
+	go func() {
+		core.Parallel(14, ch, func(p []byte) {
+			var l Line
+			if err := json.Unmarshal(p, &l); err != nil {
+				c.Broken("bad scenario line: " + err.Error())
+				return
+			}
+			k := atomic.AddInt64(n, 1)
+			differ := l.F["selfov"]
+			for i := range l.R0 {
+				if l.R0[i] != l.R1[i] {
+					differ = true
+				}
+			}
+			var lp latgeo.LPath
+			var cp latgeo.CPath
+			var key string
+			if curved {
+				if err := json.Unmarshal(l.P, &cp); err != nil {
+					c.Broken("bad curved path: " + err.Error())
 					return
 				}
-				k := atomic.AddInt64(n, 1)
-				differ := l.F["selfov"]
-				for i := range l.R0 {
-					if l.R0[i] != l.R1[i] {
-						differ = true
-					}
+				key = cp.SVG()
+				differ = true
+			} else {
+				if err := json.Unmarshal(l.P, &lp); err != nil {
+					c.Broken("bad path: " + err.Error())
+					return
 				}
-				var lp latgeo.LPath
-				var cp latgeo.CPath
-				var key string
-				if curved {
-					if err := json.Unmarshal(l.P, &cp); err != nil {
-						c.Broken("bad curved path: " + err.Error())
-						return
-					}
-					key = cp.SVG()
-					differ = true
-				} else {
-					if err := json.Unmarshal(l.P, &lp); err != nil {
-						c.Broken("bad path: " + err.Error())
-						return
-					}
-					key = lp.SVG()
+				key = lp.SVG()
+			}
+			if differ {
+				if _, dup := seen.LoadOrStore(key, true); !dup {
+					atomic.AddInt64(nontriv, 1)
 				}
-				if differ {
-					if _, dup := seen.LoadOrStore(key, true); !dup {
-						atomic.AddInt64(nontriv, 1)
-					}
+			}
+			embs := embsFor(hash(key), c.Thorough())
+			if curved {
+				// one large-scale embedding (exact cells) and one natural-scale embedding (cells with the flattening margin)
+				embs = []latgeo.Emb{latgeo.CurvedEmbeddings[int(hash(key))%len(latgeo.CurvedEmbeddings)], latgeo.NaturalEmbeddings[int(hash(key)/7)%len(latgeo.NaturalEmbeddings)]}
+			}
+			for ei, e := range embs {
+				exp := [4][]int{l.R0, l.R1, l.R2, l.R3}
+				if curved && ei == 1 {
+					exp = [4][]int{l.M0, l.M1, l.M2, l.M3}
 				}
-				embs := embsFor(hash(key), c.Thorough())
-				if curved {
-					// one large-scale embedding (exact cells) and one natural-scale embedding (cells with the flattening margin)
-					embs = []latgeo.Emb{latgeo.CurvedEmbeddings[int(hash(key))%len(latgeo.CurvedEmbeddings)], latgeo.NaturalEmbeddings[int(hash(key)/7)%len(latgeo.NaturalEmbeddings)]}
+				s := &Scenario{Kind: "settle", S: hdr.S, Samples: hdr.Samples, P: lp, CP: cp, Open: open, Det: det, Emb: e, Exp: exp, F: l.F}
+				if len(space) > 0 {
+					s.Space = space[0]
 				}
-				for ei, e := range embs {
-					exp := [4][]int{l.R0, l.R1, l.R2, l.R3}
-					if curved && ei == 1 {
-						exp = [4][]int{l.M0, l.M1, l.M2, l.M3}
-					}
-					s := &Scenario{Kind: "settle", S: hdr.S, Samples: hdr.Samples, P: lp, CP: cp, Open: open, Det: det, Emb: e, Exp: exp, F: l.F}
-					ms := exec(s, false)
-					c.Count(8, 0, 1)
-					if k%20000 == 3 {
-						c.Sample(map[string]any{"p": key, "expected_nonzero": l.R0, "expected_evenodd": l.R1})
-					}
-					c.Report(s, ms)
+				ms := exec(s, false)
+				c.Count(8, 0, 1)
+				if k%20000 == 3 {
+					c.Sample(map[string]any{"p": key, "expected_nonzero": l.R0, "expected_evenodd": l.R1})
 				}
-			})
-			close(done)
-		}()
-		c.TLC(o, true)
-		close(ch)
-		<-done
-	}
+				c.Report(s, ms)
+			}
+		})
+		close(done)
+	}()
+	c.TLC(o, true)
+	close(ch)
+	<-done
+}
